@@ -1,0 +1,173 @@
+//! Verification hooks (cargo feature `verif`, off by default).
+//!
+//! A dependency-free hook registry used by the deterministic simulator that lives outside this
+//! repository. With no hook table installed every entry point is a no-op, so enabling the feature
+//! does not change behaviour on its own.
+
+use std::future::Future;
+use std::pin::Pin;
+use std::ptr;
+use std::sync::atomic::{AtomicPtr, Ordering};
+use std::task::{Context, Poll};
+
+/// Callbacks installed by the simulator. All callbacks must be cheap and must not panic.
+pub struct Hooks {
+    /// A named synchronous scheduling point.
+    pub yield_point: fn(&'static str),
+    /// Called before an attempt to take a shim mutex (address identifies the mutex).
+    pub before_lock: fn(usize),
+    /// Called when a `try_lock` found the mutex held; the callee should let another actor run.
+    pub lock_blocked: fn(usize),
+    /// Called after a shim mutex was released.
+    pub lock_released: fn(usize),
+    /// A named loop iteration (lets the simulator bound loops deterministically).
+    pub tick: fn(&'static str),
+    /// How many times the named async scheduling point should return `Pending` on this visit.
+    pub async_yields: fn(&'static str) -> u32,
+}
+
+static HOOKS: AtomicPtr<Hooks> = AtomicPtr::new(ptr::null_mut());
+
+pub fn set_hooks(hooks: &'static Hooks) {
+    HOOKS.store(hooks as *const Hooks as *mut Hooks, Ordering::SeqCst);
+}
+
+pub fn clear_hooks() {
+    HOOKS.store(ptr::null_mut(), Ordering::SeqCst);
+}
+
+#[inline]
+fn hooks() -> Option<&'static Hooks> {
+    let ptr = HOOKS.load(Ordering::Acquire);
+    if ptr.is_null() {
+        None
+    } else {
+        // Safety: only ever set from a `&'static Hooks`.
+        Some(unsafe { &*ptr })
+    }
+}
+
+#[inline]
+pub fn yield_point(name: &'static str) {
+    if let Some(h) = hooks() {
+        (h.yield_point)(name);
+    }
+}
+
+#[inline]
+pub fn tick(name: &'static str) {
+    if let Some(h) = hooks() {
+        (h.tick)(name);
+    }
+}
+
+struct YieldOnce(bool);
+
+impl Future for YieldOnce {
+    type Output = ();
+    fn poll(mut self: Pin<&mut Self>, cx: &mut Context<'_>) -> Poll<()> {
+        if self.0 {
+            Poll::Ready(())
+        } else {
+            self.0 = true;
+            cx.waker().wake_by_ref();
+            Poll::Pending
+        }
+    }
+}
+
+/// A named asynchronous scheduling point: returns `Pending` (after waking itself) as many times as
+/// the installed hook table asks for; zero times when no hooks are installed.
+pub async fn yield_async(name: &'static str) {
+    let n = match hooks() {
+        Some(h) => (h.async_yields)(name),
+        None => 0,
+    };
+    for _ in 0..n {
+        YieldOnce(false).await;
+    }
+}
+
+pub mod sync {
+    //! Drop-in replacement for the subset of `std::sync::Mutex` used by the store, which reports
+    //! contention and release to the installed hooks so a cooperative scheduler can preempt a
+    //! thread inside a critical section without dead-locking on a thread it has parked.
+
+    use std::ops::{Deref, DerefMut};
+    use std::sync::{LockResult, PoisonError, TryLockError};
+
+    pub struct Mutex<T> {
+        inner: std::sync::Mutex<T>,
+    }
+
+    pub struct MutexGuard<'a, T> {
+        inner: Option<std::sync::MutexGuard<'a, T>>,
+        addr: usize,
+    }
+
+    impl<T> Mutex<T> {
+        pub fn new(value: T) -> Self {
+            Self {
+                inner: std::sync::Mutex::new(value),
+            }
+        }
+
+        pub fn lock(&self) -> LockResult<MutexGuard<'_, T>> {
+            let Some(hooks) = super::hooks() else {
+                let addr = self as *const Self as usize;
+                return match self.inner.lock() {
+                    Ok(guard) => Ok(MutexGuard {
+                        inner: Some(guard),
+                        addr,
+                    }),
+                    Err(poisoned) => Err(PoisonError::new(MutexGuard {
+                        inner: Some(poisoned.into_inner()),
+                        addr,
+                    })),
+                };
+            };
+
+            let addr = self as *const Self as usize;
+            (hooks.before_lock)(addr);
+            loop {
+                match self.inner.try_lock() {
+                    Ok(guard) => {
+                        return Ok(MutexGuard {
+                            inner: Some(guard),
+                            addr,
+                        })
+                    }
+                    Err(TryLockError::Poisoned(poisoned)) => {
+                        return Err(PoisonError::new(MutexGuard {
+                            inner: Some(poisoned.into_inner()),
+                            addr,
+                        }))
+                    }
+                    Err(TryLockError::WouldBlock) => (hooks.lock_blocked)(addr),
+                }
+            }
+        }
+    }
+
+    impl<T> Deref for MutexGuard<'_, T> {
+        type Target = T;
+        fn deref(&self) -> &T {
+            self.inner.as_ref().expect("guard")
+        }
+    }
+
+    impl<T> DerefMut for MutexGuard<'_, T> {
+        fn deref_mut(&mut self) -> &mut T {
+            self.inner.as_mut().expect("guard")
+        }
+    }
+
+    impl<T> Drop for MutexGuard<'_, T> {
+        fn drop(&mut self) {
+            drop(self.inner.take());
+            if let Some(hooks) = super::hooks() {
+                (hooks.lock_released)(self.addr);
+            }
+        }
+    }
+}
